@@ -34,7 +34,7 @@ Theorem C12_call_order : forall rs E d name n st lg,
            | Some (VType tn) =>
                (do vals <- resolve_args rs E d args;
                 do r <- mlift (construct_type (e_now E) tn vals); mret (None, push r st2)) lg1
-           | _ => (ROk (None, push (VErr ERuntime) st2), lg1)
+           | _ => (if folding E then mfail ERuntime else mret (None, push (VErr ERuntime) st2)) lg1
            end
   | (o, lg1) => (mcast o, lg1)
   end.
